@@ -783,3 +783,132 @@ func RunStaleLeader(variant int, ruleset, scheme string, rng *vbase.Rng, r *vbas
 	}
 	return done()
 }
+
+// RunForgedQCToNextLeader (Fast-HotStuff / aggregate timeout rule): every honest replica times out in its view v; the
+// Byzantine replica, which receives the timeout messages like everybody else, assembles a genuine TC(v) from them and gets
+// a new-view message {TC(v), forged QC for a block it fabricated, no aggregate QC} to the leader of view v+1 before that
+// leader has seen the other timeouts. The leader may enter view v+1 on the TC, but it must not sign a proposal that
+// carries the forged certificate.
+func RunForgedQCToNextLeader(variant int, scheme string, rng *vbase.Rng, r *vbase.Result, enable func(*Monitors)) *Cluster {
+	cfg := Config{N: 4, Ruleset: rules.NameFastHotStuff, Scheme: scheme, Cache: uint([]int{0, 100}[variant%2]), Leader: "round-robin", BatchSize: 1,
+		Profile: "directed:forged-qc-to-next-leader", ByzRules: map[hotstuff.ID]string{}, Scripted: []hotstuff.ID{4}, Label: fmt.Sprintf("forged-qc-to-next-leader/%d", variant)}
+	c, err := NewCluster(cfg, rng, r)
+	if err != nil {
+		r.Inconclusive("cannot build forged-qc-to-next-leader cluster: " + err.Error())
+		return nil
+	}
+	enable(c.Mon)
+	byz := c.Actors[3]
+	st := byz.Byz
+	done := func() *Cluster { c.Mon.atEnd(); c.Close(); return c }
+	c.Start()
+	c.Step = 1
+	for round := 0; round < 3+variant/2 && c.Panic == nil; round++ {
+		c.cmd.topUp()
+		// views end by timeouts here; run a few rounds so that v is not always 1
+		c.lockstepRound(nil)
+		c.Step++
+		c.Mon.afterStep()
+	}
+	// all honest replicas time out in their current view (the same one after the lock-step rounds)
+	v := c.Actors[0].Node.VS.View()
+	for _, a := range c.Actors[:3] {
+		if a.Node.VS.View() != v {
+			c.R.Obs("forged_qc_setup_failed", 1)
+			return done()
+		}
+	}
+	// the pending traffic of earlier rounds is delivered first; the view after v must be led by an honest replica
+	c.lockstepRound(nil)
+	v = c.Actors[0].Node.VS.View()
+	for tries := 0; tries < 6 && c.publicLeader(v+1) == byz.ID; tries++ {
+		c.cmd.topUp()
+		c.lockstepRound(nil) // nothing pending => everybody times out and the view ends by a timeout certificate
+		c.lockstepRound(nil)
+		c.Step++
+		v = c.Actors[0].Node.VS.View()
+	}
+	for _, a := range c.Actors[:3] {
+		if a.Node.VS.View() != v {
+			c.R.Obs("forged_qc_setup_failed", 1)
+			return done()
+		}
+	}
+	if c.publicLeader(v+1) == byz.ID {
+		c.R.Obs("forged_qc_setup_failed", 1)
+		return done()
+	}
+	for _, a := range c.Actors[:3] {
+		if a.Node.VS.View() == v {
+			c.LocalTimeout(a)
+		}
+	}
+	c.FaultSteps++
+	// only the Byzantine replica's copies of the timeout messages arrive for now
+	for i := 0; i < len(c.Pool); {
+		if c.Pool[i].To == byz.Idx {
+			c.deliver(c.removePool(i))
+		} else {
+			i++
+		}
+	}
+	byID := map[hotstuff.ID]hotstuff.TimeoutMsg{}
+	for _, t := range st.timeouts {
+		if t.View == v {
+			byID[t.ID] = t
+		}
+	}
+	vs, _ := byz.M.Auth.Sign(v.ToBytes())
+	own := hotstuff.TimeoutMsg{ID: byz.ID, View: v, ViewSignature: vs, SyncInfo: hotstuff.NewSyncInfoWith(st.highQC())}
+	if ms, err := byz.M.Auth.Sign(own.ToBytes()); err == nil {
+		own.MsgSignature = ms
+	}
+	byID[byz.ID] = own
+	var tms []hotstuff.TimeoutMsg
+	for _, t := range byID {
+		tms = append(tms, t)
+	}
+	if len(tms) < c.W.Q() {
+		c.R.Obs("forged_qc_setup_failed", 1)
+		return done()
+	}
+	tc, err := byz.M.Auth.CreateTimeoutCert(v, tms)
+	if err != nil {
+		c.R.Obs("forged_qc_setup_failed", 1)
+		return done()
+	}
+	// the forged certificate: a fabricated block "certified" by the Byzantine replica alone (or by its signature repeated)
+	hq := st.highQC()
+	fab := hotstuff.NewBlock(hq.BlockHash(), hq, c.byzBatch(byz), v, byz.ID)
+	c.registerByzBlock(byz, fab)
+	var fsig hotstuff.QuorumSignature
+	if variant%2 == 0 {
+		fsig, _ = byz.M.Auth.Sign(fab.ToBytes())
+	} else {
+		fsig = c.sigRepeated(byz, fab.ToBytes(), c.W.Q())
+	}
+	if fsig == nil {
+		c.R.Obs("forged_qc_setup_failed", 1)
+		return done()
+	}
+	si := hotstuff.NewSyncInfoWith(tc)
+	si.SetQC(hotstuff.NewQuorumCert(fsig, fab.View(), fab.Hash()))
+	leader := c.publicLeader(v + 1)
+	c.trace(TraceEntry{Kind: "byz", From: byz.Name(), What: "tc-plus-forged-qc-to-next-leader", View: uint64(v)})
+	for _, o := range c.Actors[:3] {
+		if o.ID == leader {
+			c.deliver(Pending{From: byz.Idx, To: o.Idx, Msg: hotstuff.NewViewMsg{ID: byz.ID, SyncInfo: si}})
+			c.R.Obs("forged_qc_newviews_delivered", 1)
+			if o.Node.VS.View() > v {
+				c.R.Obs("forged_qc_leader_entered_next_view_on_the_tc", 1)
+			}
+		}
+	}
+	for round := 0; round < 4 && c.Panic == nil; round++ {
+		c.cmd.topUp()
+		c.lockstepRound(nil)
+		c.Step++
+		c.Mon.afterStep()
+	}
+	return done()
+}
